@@ -60,6 +60,7 @@ Definition lock_of_src (l : nat) (n : string) : option lockref :=
   else if String.eqb n "gmtls.Conn.in>gmtls.halfConn.Mutex" then Some (LMutex M_in)
   else if String.eqb n "gmtls.Conn.out>gmtls.halfConn.Mutex" then Some (LMutex M_out)
   else if String.eqb n "gmtls.Conn.handshakeMutex" then Some (LMutex M_hs)
+  else if String.eqb n "sm4.ivMu" then Some (LMutex M_iv)
   else if String.eqb n "atomic" then
     (if Nat.eqb l L_conn_ac then Some (LMutex A_ac) else if Nat.eqb l L_conn_st then Some (LMutex A_st) else None)
   else if String.eqb n "once:sm2.initonce" then Some (LOnce O_curve)
@@ -78,6 +79,9 @@ Definition rows_of_entry (e : string) : list op :=
   else if String.eqb e "gmtls.lruSessionCache.Get" then [lru_get]
   else if String.eqb e "gmtls.lruSessionCache.Put" then [lru_put]
   else if String.eqb e "sm4.SetIV" then [sm4_set_iv]
+  else if String.eqb e "sm4.Sm4GCM" || String.eqb e "sm4.GCMEncrypt" || String.eqb e "sm4.GCMDecrypt" then [sm4_gcm_helper]
+  else if String.eqb e "sm2.KeyExchangeA" || String.eqb e "sm2.KeyExchangeB" then [sm2_key_exchange]
+  else if String.prefix "pkcs12." e then [pkcs12_codec]
   else if String.eqb e "x509.CertPool.AddCert" || String.eqb e "x509.CertPool.AppendCertsFromPEM" then [certpool_add]
   else if String.eqb e "x509.Certificate.FromX509Certificate" || String.eqb e "x509.CreateCertificate"
           || String.eqb e "x509.CreateCertificateToPem" then [x509_cert_fill]
@@ -198,6 +202,7 @@ Definition allowed_unattributed : list string :=
     "funcvalue:c.config.GetConfigForClient"; "funcvalue:c.config.VerifyPeerCertificate";
     "funcvalue:t in (*gmtls.Config).time";            (* Config.Time or time.Now *)
     "funcvalue:f in (x509.Hash).New";                 (* the constructor registered with RegisterHash *)
+    "funcvalue:hash in pkcs12.pbkdf";                 (* the hash constructor handed to the PKCS#12 KDF (sha1.New): a fresh object *)
     (* cipher-suite table entries and PRF selection: the functions stored there are the package's own constructors
        (cipher_suites.go, prf.go), which build fresh objects; they are analysed as ordinary functions when called
        directly *)
@@ -260,3 +265,12 @@ Definition ex_pair_cfg_cfg : string * string := ("gmtls.Config.mutex", "gmtls.Co
 Definition ex_pair_cfg_hs : string * string := ("gmtls.Config.mutex", "gmtls.Conn.handshakeMutex").
 Definition pair_ranked (p : string * string) : bool :=
   match src_rank (fst p), src_rank (snd p) with Some a, Some b => Nat.ltb a b | _, _ => false end.
+
+Definition ex_w_iv : string * list string := ("sm4.IV", ["sm4.ivMu"]).
+Definition ex_w_iv_unlocked : string * list string := ("sm4.IV", []).
+Definition ex_entry_setiv := "sm4.SetIV".
+(* the generated file has an entry for sm4.SetIV, and all it writes is sm4.IV under sm4.ivMu *)
+Definition ex_setiv_only_writes_iv : bool :=
+  existsb (fun e => String.eqb (fst e) ex_entry_setiv
+                    && forallb (fun w => String.eqb (fst w) (fst ex_w_iv) && match snd w with [l] => String.eqb l "sm4.ivMu" | _ => false end) (snd e)
+                    && negb (match snd e with [] => true | _ => false end)) gen_write_sets.
